@@ -20,6 +20,7 @@ type TV struct {
 	GT types.Type // Go type when known
 	// Tuple components for multi-valued SSA values
 	Tup []TV
+	Lit *string // string literal value when the term is a string constant
 }
 
 type State struct {
@@ -259,7 +260,7 @@ func (s *Sym) havoc(st *State, names []string, why string) {
 	star := false
 	set := map[string]bool{}
 	for _, n := range names {
-		if n == ModStar || n == "ARGSTAR" {
+		if n == ModStar {
 			star = true
 		}
 		set[n] = true
@@ -278,6 +279,9 @@ func (s *Sym) havoc(st *State, names []string, why string) {
 		}
 		if strings.HasPrefix(k, "H:") && !set[k] {
 			continue // ghost state only changes through contracts
+		}
+		if strings.HasPrefix(k, "L:") && !set[k] {
+			continue // non-escaping local cells are invisible to callees
 		}
 		if strings.HasPrefix(k, "G:") && s.isErrGlobal(k) {
 			continue
@@ -588,4 +592,27 @@ func (s *Sym) freshValue(st *State, base string, t types.Type) TV {
 	v := TV{T: s.fresh(base, so), S: so, GT: t}
 	s.assumeType(st, v)
 	return v
+}
+
+// constArray returns an array term mapping every index to the zero value of
+// the element sort. cvc5 accepts (as const ...) only for values, so sorts whose
+// zero is not a value get a fresh array with a quantified axiom.
+func (s *Sym) constArray(idxSort, elemSort string) string {
+	arrSort := "(Array " + idxSort + " " + elemSort + ")"
+	switch elemSort {
+	case "Int", "Bool", "Real":
+		return fmt.Sprintf("((as const %s) %s)", arrSort, zeroOf(elemSort))
+	case "Slice":
+		return fmt.Sprintf("((as const %s) (mk-slice 0 0))", arrSort)
+	case "Iface":
+		return fmt.Sprintf("((as const %s) (mk-iface 0 0))", arrSort)
+	}
+	key := "zeroarr:" + arrSort
+	n := q(key)
+	if !s.declared[key] {
+		s.declared[key] = true
+		s.emit(fmt.Sprintf("(declare-const %s %s)", n, arrSort))
+		s.emit(fmt.Sprintf("(assert (forall ((i %s)) (! (= (select %s i) %s) :pattern ((select %s i)))))", idxSort, n, zeroOf(elemSort), n))
+	}
+	return n
 }
